@@ -44,7 +44,7 @@ def meta(tier):
                 'third a constant), automatic #endif closers and an observation suffix (#ifdef probes for SA/SB/SM, a byte '
                 'that shows the mute state, references to every label/constant a marker defined, a zone probe); '
                 'non-trivial = history with >=1 conditional directive whose reference selection both excludes and includes '
-                'at least one marker; plus the comparison product: every pair of 11 operand spellings (decimal, hex, binary, expressions, '
+                'at least one marker; plus the comparison product: every pair of 14 operand spellings (incl. negative values) (decimal, hex, binary, expressions, '
                 'symbols) x 6 operators, and every operand as a bare condition; states = distinct canonical reference states (symbols, zones, cursors, mute, labels)',
         'bounds': {'alphabet': [R.render_stmt(s) for s in SIGMA], 'core_alphabet': [R.render_stmt(s) for s in SIGMA_CORE_Q],
                    'depth_full_alphabet': 4 if q else 5, 'depth_core_alphabet': 5 if q else 6,
@@ -197,7 +197,8 @@ def shard(acc, tier, idx, n):
         rec_core((a, b))
 
 
-CMP_OPERANDS = [('9', 9), ('10', 10), ('$0A', 10), ('0x0a', 10), ('1+1', 2), ('2', 2), ('SA', 1), ('SN', 12), ('0', 0), ('(3-3)', 0), ('b11', 3)]
+CMP_OPERANDS = [('9', 9), ('10', 10), ('$0A', 10), ('0x0a', 10), ('1+1', 2), ('2', 2), ('SA', 1), ('SN', 12), ('0', 0), ('(3-3)', 0), ('b11', 3),
+                ('SM', -3), ('(1-4)', -3), ('SA-2', -1)]
 CMP_OPS = {'==': lambda a, b: a == b, '!=': lambda a, b: a != b, '>': lambda a, b: a > b, '>=': lambda a, b: a >= b,
            '<': lambda a, b: a < b, '<=': lambda a, b: a <= b}
 
@@ -211,7 +212,7 @@ def comparisons(acc, idx, n):
             if ctr % n != idx:
                 continue
             holds = fn(va, vb)
-            src = f'#define SA 1\n#define SN 12\n    .byte 17\n#if {ta} {op} {tb}\n    .byte 34\n#elif {tb} {op} {ta}\n    .byte 51\n#else\n    .byte 68\n#endif\n    .byte 85\n'
+            src = f'#define SA 1\n#define SN 12\n#define SM 0-3\n    .byte 17\n#if {ta} {op} {tb}\n    .byte 34\n#elif {tb} {op} {ta}\n    .byte 51\n#else\n    .byte 68\n#endif\n    .byte 85\n'
             second = fn(vb, va)
             body = [17] + ([34] if holds else [51] if second else [68]) + [85]
             case = Case(ISA, src)
@@ -226,7 +227,7 @@ def comparisons(acc, idx, n):
         ctr += 1
         if ctr % n != idx:
             continue
-        src = f'#define SA 1\n#define SN 12\n#if {ta}\n    .byte 34\n#else\n    .byte 68\n#endif\n'
+        src = f'#define SA 1\n#define SN 12\n#define SM 0-3\n#if {ta}\n    .byte 34\n#else\n    .byte 68\n#endif\n'
         case = Case(ISA, src)
         out = acc.run(case)
         acc.transition()
